@@ -36,3 +36,51 @@ Print Assumptions C03_version_string_refuted.
 
 Example C03_nonvacuous : ver_ok (rel 0 2 9) /\ ver_ok {| vmaj := 7; vmin := 1023; vpat := 1023; vdev := true |}.
 Proof. unfold ver_ok; cbn; lia. Qed.
+
+(* ------------------------------------------------------------------------------------------------------------
+   Container layout (converters).  The size/format fields are GENERATED from make_header (Gen/Header.v); the
+   footer padding from both write_headers (Gen/Header.v); the reader's derived sizes from SgzReader.__init__
+   (Gen/Reader.v).  cfg3 is the property's notion of a valid 3D setting; fields_ok says the values fit their 32-bit
+   slots (otherwise struct.pack raises and nothing is written). *)
+From SZ Require Import Lib.Py Gen.Reader Gen.Header Spec.Container Model.Writer Proofs.Writer Model.HeaderW Proofs.ContainerW.
+
+(* The header states the true dimensions, bit rate, blockshape, trace count, array length; it is well-formed (one
+   block = 4096 bytes); the stated number of disk blocks is exactly padded voxels x bits / 8 = unit bytes x number
+   of units -- and that number of units is what the producers write (C01_data_section_complete). *)
+Theorem C03_converter_header_conforms : forall rn rd ns n_il n_xl bs0 bs1 bs2 n_arrays venc tc,
+  cfg3 rn rd ns n_il n_xl bs0 bs1 bs2 = true ->
+  fields_ok rn rd ns n_il n_xl 0 tc bs0 bs1 bs2 n_arrays venc false false = true ->
+  exists H, written_hdr rn rd ns n_il n_xl 0 tc bs0 bs1 bs2 n_arrays venc false false = Return H /\
+    wf3 H = true /\
+    (s_nhb H = 2 /\ s_nil H = n_il /\ s_nxl H = n_xl /\ s_ns H = ns /\ s_bs0 H = bs0 /\ s_bs1 H = bs1 /\ s_bs2 H = bs2 /\
+     s_rn H = rn /\ s_rd H = rd /\ s_hel H = 4 * (n_il * n_xl) /\ s_nha H = n_arrays /\ s_ntr H = n_il * n_xl /\ s_ver H = venc) /\
+    s_ndb H * 4096 = s_data_bytes3 H /\ s_data_bytes3 H = s_ub3 H * data_units H /\
+    List.length (dims_np H) = Z.to_nat (data_units H) /\ List.length (dims_sf H) = Z.to_nat (data_units H).
+Proof.
+  intros rn rd ns n_il n_xl bs0 bs1 bs2 n_arrays venc tc CFG FIT.
+  exists (Hw rn rd ns n_il n_xl bs0 bs1 bs2 n_arrays venc tc).
+  pose proof (written_wf _ _ _ _ _ _ _ _ n_arrays venc tc CFG FIT) as WF.
+  split; [apply written_is_Hw; exact FIT|]. split; [exact WF|]. split; [apply written_states_truth; assumption|].
+  destruct (written_diskblocks _ _ _ _ _ _ _ _ n_arrays venc tc CFG FIT) as [D1 D2]. split; [exact D1|]. split; [exact D2|].
+  apply written_count. exact WF.
+Qed.
+Print Assumptions C03_converter_header_conforms.
+
+(* Footer: each array is followed by (-len) mod 512 bytes (both converters, generated); for a file of a version after
+   0.2.1 that is exactly the stride the GENERATED reader derives (512 + 512*((len-1)/512)); so array k starts where
+   the reader looks for it, and the file ends after the last array. *)
+Theorem C03_footer_stride_agrees : forall H, version_to_encoding 0 2 1 false < rd_file_version_enc H -> 1 <= s_hel H ->
+  rd_padded_header_entry_length_bytes H = footer_stride_written (s_hel H) /\
+  footer_pad_numpy (s_hel H) = footer_pad_segy (s_hel H) /\
+  forall start n k, (k < n)%nat ->
+    nth k (footer_positions start (s_hel H) n) 0 = start + Z.of_nat k * rd_padded_header_entry_length_bytes H.
+Proof.
+  intros H V L. pose proof (footer_stride_agrees H V L) as E. split; [exact E|]. split; [reflexivity|].
+  intros start n k Hk. rewrite E. apply footer_positions_nth. exact Hk.
+Qed.
+Print Assumptions C03_footer_stride_agrees.
+
+Example C03_container_nonvacuous :
+  cfg3 1 2 300 9 10 4 4 4096 = true /\ fields_ok 1 2 300 9 10 0 0 4 4 4096 3 4199 false false = true /\
+  cfg3 2 1 9 70 65 64 64 4 = true.
+Proof. repeat split; vm_compute; reflexivity. Qed.
